@@ -139,7 +139,9 @@ static std::string execute(const Case &c, std::vector<vs::Choice> *trace_out, lo
     WConfig wc;
     wc.comp = c.action % 6;
     wc.block_size = 1024;
-    ref_img = fd_contents(write_table(wc, wkv));
+    int rfd = write_table(wc, wkv);
+    ref_img = fd_contents(rfd);
+    close(rfd);  // one exploration child runs up to 150 000 executions: nothing may leak between them
   }
   vs::begin(c.tape, c.max_preempt, c.max_spurious);
   int bound = 0;
@@ -191,7 +193,9 @@ static std::string execute(const Case &c, std::vector<vs::Choice> *trace_out, lo
       wc.comp = j->comp;
       wc.block_size = 1024;
       // the un-pooled reference writer makes no pthread call, so it may run while the scheduler is active
-      bytes want = fd_contents(write_table(wc, kv));
+      int rfd = write_table(wc, kv);
+      bytes want = fd_contents(rfd);
+      close(rfd);
       if (j->refused) err = "pooled writer refused an increasing key";
       else if (j->out != want && err.empty()) err = std::string("writer ") + (j->salt ? "2" : "1") + " sharing the pool: output differs from the un-pooled writer's";
     }
